@@ -865,6 +865,12 @@ func (x *Exec) cutLoopAtHeader(fn *ssa.Function, l *Loop, spec *LoopSpec, st *St
 		if spec.Dropped[i] {
 			continue
 		}
+		if inv.Candidate && spec.Dropped != nil && !x.candidateEvaluates(env, inv) {
+			// a candidate written for another shape of this loop (it names a variable this shape does not have)
+			spec.Dropped[i] = true
+			x.note("candidate invariant does not apply to this code shape (unresolved name), not used: loop %d: %s", l.Ordinal, inv.Text)
+			continue
+		}
 		ob := x.oblige("inv-init", fmt.Sprintf("loop%d.%d", l.Ordinal, i), inv.Tags, inv.Text, st.Guard, x.evalClause(env, inv))
 		if inv.Candidate {
 			ob.CandLoop, ob.CandIdx = l.Ordinal, i+1
@@ -1269,4 +1275,21 @@ func (x *Exec) fcUsesCallResults() bool {
 		}
 	}
 	return x.usesCallRes > 0
+}
+
+// candidateEvaluates: the candidate clause can be evaluated in env (all its names resolve).
+func (x *Exec) candidateEvaluates(env *SpecEnv, c *Clause) (ok bool) {
+	defer func() {
+		if r := recover(); r != nil {
+			if _, isSpec := r.(specErr); isSpec {
+				ok = false
+				return
+			}
+			panic(r)
+		}
+	}()
+	saved := len(x.assumes)
+	env.evalBool(c.E)
+	x.assumes = x.assumes[:saved] // side facts of a trial evaluation are not kept
+	return true
 }
